@@ -11,6 +11,7 @@ import (
 	"fmt"
 	"os"
 	"path/filepath"
+	"regexp"
 	"sort"
 	"strconv"
 	"strings"
@@ -216,6 +217,12 @@ func (r *Run) Inconclusive(reason string) {
 // Violate records a violation with witness signature sig. Known findings are
 // matched by (property, witness) and reported as KNOWN-FINDING instead.
 func (r *Run) Violate(sig, what string, files map[string]string) {
+	// a full disk or exhausted memory while building throw-away Go code decides nothing about the
+	// property (C16 injects such errors into fc on purpose and judges them itself)
+	if m := envTroubleRe.FindString(what); m != "" && r.Prop != "C16" {
+		r.Inconclusive("the environment failed, not the code (" + m + "): " + trunc(what, 240))
+		return
+	}
 	r.mu.Lock()
 	defer r.mu.Unlock()
 	for _, k := range r.known {
@@ -234,6 +241,8 @@ func (r *Run) Violate(sig, what string, files map[string]string) {
 }
 
 func (r *Run) NumViolations() int { r.mu.Lock(); defer r.mu.Unlock(); return len(r.viol) }
+
+var envTroubleRe = regexp.MustCompile(`no space left on device|cannot allocate memory|too many open files|resource temporarily unavailable`)
 
 func trunc(s string, n int) string {
 	if len(s) <= n {
